@@ -279,7 +279,11 @@ def get_attr(interp, o, attr, st, node):
                 for c in sh: r = r * c
                 return r
         if attr == "ndim": return X.const(o.ndim if not isinstance(o, LocalArr) else len(o.shape))
-        if attr == "T": return arr_transpose(o) if not isinstance(o, LocalArr) else Opaque("T of local")
+        if attr == "T":
+            if isinstance(o, LocalArr):
+                A_ = local_to_arr(o)
+                return arr_transpose(A_) if A_ is not None and not is_opaque(A_) else Opaque("T of a partially filled local array")
+            return arr_transpose(o)
         if attr in ("real", "imag"):
             A = as_arr(o)
             if A is None: return Opaque("real/imag of local array")
@@ -289,6 +293,9 @@ def get_attr(interp, o, attr, st, node):
     if isinstance(o, X):
         if attr == "real": return lift1(lambda x: x.real(), o)
         if attr == "imag": return lift1(lambda x: x.imag(), o)
+        if attr == "size": return X.const(1)
+        if attr == "ndim": return X.const(0)
+        if attr == "shape": return ()
         return BoundMethod(o, attr)
     if isinstance(o, (str, DictVal, ListVal, tuple)):
         return BoundMethod(o, attr)
@@ -424,6 +431,8 @@ def arr_getitem(A, idx):
             stp = to_x(step).as_int() if step is not None else 1
             if stp not in (1, -1) or any(isinstance(z, PV) for z in (lo, hi)):
                 return Opaque("strided slice")
+            if any(z is not None and to_x(z) is None for z in (lo, hi)):
+                return Opaque(f"slice bound {lo!r}:{hi!r}")
             if stp == 1:
                 lo = X.const(0) if lo is None else _wrap(to_x(lo), c)
                 hi = c if hi is None else _wrap(to_x(hi), c)
